@@ -74,8 +74,8 @@ def event_eq(ea, eb, idx):
         db = (eb[2]["len"], lambda i, d=eb[2]: Mx.data_byte(d, i))
         return z3.And(*c, payload_eq(da, db, idx))
     if k in ("call", "staticcall", "delegatecall", "callcode"):
-        _, gas_a, to_a, val_a, cd_a = ea
-        _, gas_b, to_b, val_b, cd_b = eb
+        _, gas_a, to_a, val_a, cd_a = ea[:5]
+        _, gas_b, to_b, val_b, cd_b = eb[:5]
         da = (cd_a["len"], lambda i, d=cd_a: Mx.data_byte(d, i))
         db = (cd_b["len"], lambda i, d=cd_b: Mx.data_byte(d, i))
         c = [to_a == to_b, val_a == val_b, payload_eq(da, db, idx)]
@@ -197,6 +197,10 @@ def outcome_parts(a, b, idx, regions=None, short=0):
                     c.append(ea[1] == eb[1][1])
                 parts.append((f"event{n}:target-value-gas", z3.And(*c)))
                 parts += payload_parts(f"event{n}:calldata", (ea[4]["len"], lambda i, d=ea[4]: Mx.data_byte(d, i)), (eb[4]["len"], lambda i, d=eb[4]: Mx.data_byte(d, i)), idx, short)
+                if len(ea) > 5 and len(eb) > 5 and isinstance(ea[5], dict) and isinstance(eb[5], dict):
+                    rg = regions or {"storage": [], "transient": []}
+                    parts.append((f"event{n}:storage-visible-to-the-callee", state_equiv(ea[5]["storage"], eb[5]["storage"], rg["storage"], idx)))
+                    parts.append((f"event{n}:transient-storage-visible-to-the-callee", state_equiv(ea[5]["transient"], eb[5]["transient"], rg["transient"], idx)))
             else:
                 parts.append((f"event{n}", event_eq(ea, eb, idx)))
         regions = regions or {"storage": [], "transient": []}
